@@ -76,7 +76,8 @@ def _validate(spec):
                     out["rejected"] += 1
                 continue
             out["n"] += 1
-            pr = tealcheck.validate(teal, spec["version"], spec["mode"])
+            # C04 is about what the assembler / loader accepts; stack and type discipline is property C05's check
+            pr = tealcheck.validate(teal, spec["version"], spec["mode"], stack=False)
             if pr:
                 out["problems"].append({"options": opt, "asm": asm, "problems": pr[:4], "teal": teal})
     return out
@@ -94,7 +95,7 @@ def _probe(job):
         teal = pt.compileTeal(e, pt.Mode.Application if mode == "Application" else pt.Mode.Signature, version=version)
     except Exception as ex:
         return (name, "rejected" if type(ex).__name__ in e2e.PYTEAL_ERRORS else f"crash {type(ex).__name__}", None)
-    pr = tealcheck.validate(teal, version, mode)
+    pr = tealcheck.validate(teal, version, mode, stack=False)
     return (name, pr, teal)
 
 
